@@ -76,7 +76,7 @@ class Tracer:
 
     def step(self):
         r = self.r
-        k = r.randrange(9)
+        k = r.randrange(12)
         a = self.pick(DT.FLOAT)
         if a is None:
             return
@@ -108,6 +108,16 @@ class Tracer:
             v = self.apply("Max", [a, r.choice(LITS_F), r.choice(LITS_F)], like=0)
         elif k == 7 and len(shp) >= 1:
             v = self.apply("ReduceSum", [a, [0]], {"keepdims": 1})
+        elif k == 9 and len(shp) >= 1 and shp[0] >= 1:
+            # the same integer as a scalar literal and as a one-element list literal (different tensors: rank 0 / rank 1)
+            idx = r.choice([0, -1])
+            v = self.apply("Gather", [a, idx], {"axis": 0})
+        elif k == 10:
+            u = self.apply("Unsqueeze", [a, [0]])
+            v = self.apply("Squeeze", [u, [r.choice([0, -1]) if len(shp) == 0 else 0]])
+        elif k == 11 and len(shp) >= 1 and shp[0] >= 1:
+            g = self.apply("Gather", [a, [r.choice([0, -1])]], {"axis": 0})
+            v = self.apply("ReduceSum", [g, [0]], {"keepdims": 0})
         else:
             v = self.apply("Mul", [a, a])
         self.pool.append(v)
